@@ -59,6 +59,8 @@ pub struct Profile {
     pub exact_edge_liq_pct: u64,
     /// share of fee-pool re-pointings that name an address which is not in normal form
     pub malformed_addr_pct: u64,
+    /// share of OpenPosition calls that also attach a coin of a foreign denomination (before or after the collateral coin)
+    pub foreign_coin_pct: u64,
 }
 
 impl Default for Profile {
@@ -90,6 +92,7 @@ impl Default for Profile {
             exact_edge_pct: 2,
             exact_edge_liq_pct: 1,
             malformed_addr_pct: 20,
+            foreign_coin_pct: 2,
         }
     }
 }
@@ -206,6 +209,14 @@ impl Gen {
     }
 
     fn do_step(&mut self, h: &mut History, r: &mut Report, op: Op) -> Rc<Step> {
+        // hostile input: a stray coin of a foreign denomination next to the collateral (the engine looks its own
+        // denomination up and ignores the rest; on cw20 deployments it ignores attached coins altogether)
+        if let Op::Engine { msg: eng::ExecuteMsg::OpenPosition { .. }, sender, .. } = &op {
+            if (TRADERS.contains(&sender.as_str()) || sender == "liquidator") && self.rng.chance(self.prof.foreign_coin_pct, 100) {
+                let mode = 1 + self.rng.below(2) as u8;
+                h.step(Op::ForeignCoin { mode }, r);
+            }
+        }
         if self.prof.faulted && op.is_engine() {
             // W-FAULT: fail every sub-message once, then run the real execution
             let mut k = 1u32;
